@@ -30,6 +30,7 @@ from .type import (
     JniDataField,
     JniParameter,
     JniFunction,
+    JniFlags,
     JniErrorDomain,
     jni_prefix
 )
@@ -45,6 +46,7 @@ class JniGenerator(Generator):
         Interface: JniInterface,
         Interface.Method: JniInterface.JniMethod,
         Function: JniFunction,
+        Flags: JniFlags,
         BaseField: JniBaseField,
         SymbolicConstantField: JniSymbolicConstantField,
         Record: JniRecord,
